@@ -441,6 +441,18 @@ def resolve_unwindset(h, build, workdir):
         if m and i + 1 < len(lines):
             ids.append((m.group(1), lines[i + 1]))
     chosen = []
+    # `// @unwindloop <n> <source text>`: the loop that starts on the line of the target file containing that text
+    for line in h.meta.get("unwindloop", []):
+        n, _, text = line.partition(" ")
+        src = open(os.path.join(OVERLAY, h.target)).read().split("// ---- appended by /verif")[0].splitlines()
+        where = [i + 1 for i, l in enumerate(src) if text.strip() in l]
+        if len(where) != 1:
+            raise Inconclusive(f"{h.name}: @unwindloop text `{text.strip()}` occurs {len(where)} times in {h.target}")
+        base = os.path.basename(h.target)
+        hit = [lid for lid, desc in ids if re.search(rf"{re.escape(base)} line {where[0]} ", desc)]
+        if not hit:
+            raise Inconclusive(f"{h.name}: no loop starts at {h.target}:{where[0]} (`{text.strip()}`)")
+        chosen += [f"{lid}:{int(n)}" for lid in hit]
     for pat, n in specs:
         if pat.endswith("@outer"):
             # the loop of that function that comes first in the source (its outermost loop), whatever CBMC numbers it
@@ -463,10 +475,10 @@ def resolve_unwindset(h, build, workdir):
 
 def kani_verify(harnesses, tier, workdir, build=None):
     build = build or Build("O")
-    special = [h for h in harnesses if h.meta.get("unwindset")]
+    special = [h for h in harnesses if h.meta.get("unwindset") or h.meta.get("unwindloop")]
     if special and len(harnesses) > 1:
         # harnesses with per-loop bounds need their own invocation (--cbmc-args applies to the whole run)
-        plain = [h for h in harnesses if not h.meta.get("unwindset")]
+        plain = [h for h in harnesses if h not in special]
         merged = {"verification_results": {"results": []}, "cbmc": []}
         rc_all, logs = 0, []
         groups = ([plain] if plain else []) + [[h] for h in special]
@@ -657,7 +669,7 @@ def setup():
     """Build the Kani dependency cache and the native playback cache (see setup.sh)."""
     os.makedirs(CACHE, exist_ok=True)
     files, allh = load_property("C42")
-    h = [x for x in allh if x.name == "workers_for_all"][0]
+    h = [x for x in allh if x.name == "workers_never_exceed_work_or_pool"][0]
     workdir = os.path.join(os.path.dirname(OVERLAY), "work-setup")
     os.makedirs(workdir, exist_ok=True)
     lockf = open(LOCK, "w")
@@ -671,7 +683,7 @@ def setup():
         return 1
     t0 = time.time()
     test = ("#[test]\nfn kani_concrete_playback_setup_probe() {\n    let concrete_vals: Vec<Vec<u8>> = vec![vec![3, 0, 0, 0, 0, 0, 0, 0], "
-            "vec![8, 0, 0, 0, 0, 0, 0, 0]];\n    kani::concrete_playback_run(concrete_vals, workers_for_all);\n}\n")
+            "vec![8, 0, 0, 0, 0, 0, 0, 0]];\n    kani::concrete_playback_run(concrete_vals, workers_never_exceed_work_or_pool);\n}\n")
     insert_tests(h, [{"code": test}])
     o, lf = run_playback("kani_concrete_playback_setup_probe", False, workdir)
     log(f"[setup] playback cache built in {time.time() - t0:.0f}s ({o})")
